@@ -63,7 +63,7 @@ func spec(key echx.KeyPair, b base) echx.Spec {
 // evalMutated feeds a stream that must NOT be accepted.
 func evalMutated(r *ev.Run, m mutation, stream []byte, keys []ech.Key, goKeys []ech.Key) {
 	res := echx.Feed(stream, keys)
-	replay := map[string]any{"mutation": m, "stream": echx.Hex(stream)}
+	replay := map[string]any{"mutation": m, "stream": echx.Hex(stream), "keys": echx.KeysDoc(keys)}
 	oc := ""
 	switch {
 	case res.Panic != nil:
